@@ -408,56 +408,63 @@ func (d *HeaderFooterDetector) findRepeatingPatterns(candidates []candidate, pag
 		minOccurrences = 2
 	}
 
-	for normalizedText, group := range groups {
+	for normalizedText, textGroup := range groups {
 		// Skip very short text that isn't a page number
 		// Single letters/characters are likely fragments of larger text
 		if len(normalizedText) <= 2 && !isPageNumberPattern(normalizedText) {
 			continue
 		}
 
-		// Check if this text appears on enough pages
-		pageSet := make(map[int]bool)
-		for _, c := range group {
-			pageSet[c.PageIndex] = true
+		// The same normalized text may stand at several places of the region
+		// (a page number in the centre and a year at the left both normalize
+		// to "#"; page numbers alternating between the outer margins). Each
+		// place is judged on its own: one place that fails the occurrence or
+		// position test must not hide a genuine running text at another place.
+		for _, group := range d.clusterByPosition(textGroup) {
+			// Check if this text appears on enough pages
+			pageSet := make(map[int]bool)
+			for _, c := range group {
+				pageSet[c.PageIndex] = true
+			}
+
+			if len(pageSet) < minOccurrences {
+				continue
+			}
+
+			// Check position consistency
+			if !d.hasConsistentPosition(group) {
+				continue
+			}
+
+			// Calculate bounding box and confidence
+			bbox := d.calculateGroupBBox(group)
+			confidence := d.calculateConfidence(group, len(pages))
+
+			// Determine if this is a page number
+			isPageNum := isPageNumberPattern(normalizedText) || containsPageNumberPattern(group)
+
+			// Get representative text
+			representativeText := group[0].Text
+			if isPageNum {
+				representativeText = "[Page Number]"
+			}
+
+			// Collect page indices
+			var pageIndices []int
+			for idx := range pageSet {
+				pageIndices = append(pageIndices, idx)
+			}
+			sort.Ints(pageIndices)
+
+			regions = append(regions, HeaderFooterRegion{
+				Type:         regionType,
+				BBox:         bbox,
+				Text:         representativeText,
+				IsPageNumber: isPageNum,
+				Confidence:   confidence,
+				PageIndices:  pageIndices,
+			})
 		}
-
-		if len(pageSet) < minOccurrences {
-			continue
-		}
-
-		// Check position consistency
-		if !d.hasConsistentPosition(group) {
-			continue
-		}
-
-		// Calculate bounding box and confidence
-		bbox := d.calculateGroupBBox(group)
-		confidence := d.calculateConfidence(group, len(pages))
-
-		// Determine if this is a page number
-		isPageNum := isPageNumberPattern(normalizedText) || containsPageNumberPattern(group)
-
-		// Get representative text
-		representativeText := group[0].Text
-		if isPageNum {
-			representativeText = "[Page Number]"
-		}
-
-		// Collect page indices
-		var pageIndices []int
-		for idx := range pageSet {
-			pageIndices = append(pageIndices, idx)
-		}
-		sort.Ints(pageIndices)
-
-		regions = append(regions, HeaderFooterRegion{
-			Type:         regionType,
-			BBox:         bbox,
-			Text:         representativeText,
-			IsPageNumber: isPageNum,
-			Confidence:   confidence,
-			PageIndices:  pageIndices,
-		})
 	}
 
 	// Sort by confidence (highest first)
@@ -466,6 +473,29 @@ func (d *HeaderFooterDetector) findRepeatingPatterns(candidates []candidate, pag
 	})
 
 	return regions
+}
+
+// clusterByPosition splits candidates with the same normalized text into groups
+// that stand at the same place: within PositionTolerance / XPositionTolerance of
+// the first member of the group (the test hasConsistentPosition applies).
+func (d *HeaderFooterDetector) clusterByPosition(group []candidate) [][]candidate {
+	var clusters [][]candidate
+	for _, c := range group {
+		placed := false
+		for i := range clusters {
+			ref := clusters[i][0]
+			if absFloat(c.Y-ref.Y) <= d.config.PositionTolerance &&
+				absFloat(c.X-ref.X) <= d.config.XPositionTolerance {
+				clusters[i] = append(clusters[i], c)
+				placed = true
+				break
+			}
+		}
+		if !placed {
+			clusters = append(clusters, []candidate{c})
+		}
+	}
+	return clusters
 }
 
 // hasConsistentPosition checks if candidates appear at consistent positions
